@@ -1,0 +1,9 @@
+//go:build !verif
+
+package evaluator
+
+func verifStep() {}
+
+func verifCall() func() { return verifReturn }
+
+func verifReturn() {}
